@@ -18,6 +18,7 @@ T1  == VDict(<< <<VStr("a"), VDict(<< <<VStr("b"), VInt(1)>>, <<VStr("*"), VInt(
 OA  == VObj("A", << <<VStr("a"), VInt(1)>>, <<VStr("b"), VInt(2)>> >>)
 L12 == VList(<<VInt(1), VInt(2)>>)
 L5  == VList(<<VInt(5)>>)
+TAA == VDict(<< <<VStr("a"), VDict(<< <<VStr("a"), VInt(5)>>, <<VStr("b"), VInt(6)>> >>)>>, <<VStr("b"), VInt(7)>> >>)
 P(text, segs) == SPath(text, segs)
 Px == P("x", <<"x">>)
 InvSpec == SInvDict(<< <<"a", SProbe("id")>>, <<"b", SProbe("id")>> >>)
@@ -73,7 +74,16 @@ FullPool == <<
   SCall(T1, << <<"k", VInt(7)>> >>, 21, RdSpec),
   SCall(L5, <<>>, 21, RdSpec),
   \* 23: a failing call whose shared spec object has a yielding __repr__: trace rendering is a step
-  Call(T1, <<>>, 23, STuple(<<SRProbe, Px>>))
+  Call(T1, <<>>, 23, STuple(<<SRProbe, Px>>)),
+  \* 24: the inner call fails, the callable renders the error (str(e)) and re-raises it: the outer call's
+  \* outcome and error trace are those of the variant that does not look at the error (entry 8 / 5 style)
+  Call(T1, <<>>, 24, STuple(<<Pa, SNestLog(Call(T1, <<>>, 241, STuple(<<SProbe("id"), Pax>>)))>>)),
+  \* 25, 26: two specs giving the SAME Ref name to DIFFERENT subspecs, a yield between definition and use
+  Call(TAA, <<>>, 25, STuple(<<SRefDef("n", Pa), SProbe("id"), SRefUse("n")>>)),
+  Call(TAA, <<>>, 26, STuple(<<SRefDef("n", P("b", <<"b">>)), SProbe("id"), SRefUse("n")>>)),
+  \* 27, 28: ONE Check object with two failing conditions (equal_to, then a validator = yield point) on two targets
+  Call(L5, <<>>, 27, SCheck(VInt(0), "vfalse")),
+  Call(L12, <<>>, 27, SCheck(VInt(0), "vfalse"))
 >>
 C20Pool == SubSeq(FullPool, PoolFrom, PoolFrom + PoolSize - 1)
 
